@@ -8,6 +8,7 @@
 //!     Z                                   set_global_default(another client)  -- must be ignored once a client is set
 //!     I|<kind>|<arg>|<key>|<tags>         a macro invocation on the main thread
 //!     T|<kind>|<arg>|<key>|<tags>         the same on a fresh thread
+//!     U|<kind>|<arg>|<key>|<tags>         the same inside a destructor that runs while a fresh thread unwinds from a panic
 //!   kind = c ms g m h d s (statsd_count! .. statsd_set!); arg as in bin `wire` (one of the 22 value types);
 //!   tags = comma list <hexkey>:<hexvalue> ("-" = none; 0..5 pairs)
 //!   Every invocation is a statically expanded macro call whose argument expressions log their evaluation.
@@ -215,11 +216,30 @@ pub fn child(line: &str) -> String {
                 let other = build_client("7a7a", "-", "~", "-");
                 cadence_macros::set_global_default(other.client);
             }
-            "I" | "T" => {
+            "I" | "T" | "U" => {
                 let before_log = log.lock().unwrap().len();
                 let before_h = handled.lock().unwrap().len();
                 let (ret, ev) = if f[0] == "I" {
                     one(f[1], f[2], f[3], f[4])
+                } else if f[0] == "U" {
+                    // the invocation sits in a destructor that runs while its thread unwinds from a panic (a scope guard
+                    // counting or timing a request): generated only for processes in which a client is set
+                    struct Guard(String, String, String, String, std::sync::Arc<std::sync::Mutex<Option<(String, String)>>>);
+                    impl Drop for Guard {
+                        fn drop(&mut self) {
+                            let r = one(&self.0, &self.1, &self.2, &self.3);
+                            *self.4.lock().unwrap() = Some(r);
+                        }
+                    }
+                    let slot = std::sync::Arc::new(std::sync::Mutex::new(None));
+                    let g = Guard(f[1].to_string(), f[2].to_string(), f[3].to_string(), f[4].to_string(), slot.clone());
+                    let _ = std::thread::spawn(move || {
+                        let _g = g;
+                        panic!("unwinding with a metrics guard alive");
+                    })
+                    .join();
+                    let r = slot.lock().unwrap().take();
+                    r.unwrap_or(("panic".to_string(), "?".to_string()))
                 } else {
                     let (a, b, c, d) = (f[1].to_string(), f[2].to_string(), f[3].to_string(), f[4].to_string());
                     std::thread::spawn(move || one(&a, &b, &c, &d))
